@@ -33,8 +33,8 @@ bool build_check(const std::string& prop, const std::string& tier, CheckSpec& s,
     if (prop == "C11" || prop == "C12" || prop == "C13" || prop == "C14") {
         int focus = atoi(prop.c_str() + 1);
         s.rule = "case = one model-state transition or judged interaction of a WKD-IBE history: (op, parent pattern -> child pattern over {free, fixed(0), fixed(v), hidden}^l, omit-all flag) for key-producing steps; (from list -> to list) for adjustments; (key pattern, should-open) for decryptions; (signer pattern, extension size, mutation) for signatures; distinct by that tuple; non-trivial iff the step changes model state or is a negative/tampered case";
-        s.batches.push_back(mk("wkd", q ? 1800 : 120000, FAST, "single", {{"focus", focus}}, "histories biased towards the ops of this property; party runs on a seed-chosen replica through a seed-chosen view (C or C++ API)"));
-        s.batches.push_back(mk("wkd", q ? 500 : 40000, FAST, "single", {{"focus", 0}}, "unbiased swarm mix"));
+        s.batches.push_back(mk("wkd", q ? 1400 : 120000, FAST, "single", {{"focus", focus}}, "histories biased towards the ops of this property; party runs on a seed-chosen replica through a seed-chosen view (C or C++ API)"));
+        s.batches.push_back(mk("wkd", q ? 400 : 40000, FAST, "single", {{"focus", 0}}, "unbiased swarm mix"));
         s.batches.push_back(mk("wkd", q ? 48 : 3000, {"C/portable32"}, "single", {{"focus", focus}, {"maxops", 12}}, "32-bit-word replica (10x slower)"));
         s.batches.push_back(mk("wkd", q ? 60 : 3000, FAST, "duo", {{"focus", focus}, {"maxops", 12}}, "two histories as concurrent caller threads under the seeded scheduler (preemption inside field multiplications)"));
         return true;
@@ -111,7 +111,7 @@ bool build_check(const std::string& prop, const std::string& tier, CheckSpec& s,
         return true;
     }
     if (prop == "C20") {
-        s.rule = "case = one concurrent execution: (multiset of op kinds per task, switch-probability knob, number of context switches capped at 50); distinct by that tuple; non-trivial iff at least one preemption happened inside a library call. Plus the static link-surface audit rows (one per undefined / writable symbol per build configuration)";
+        s.rule = "case = one concurrent execution: (multiset of op kinds per task, switch-probability knob, number of context switches capped at 50); distinct by that tuple; non-trivial iff at least one preemption happened inside a library call; and one case per distinct interleaving reached: (kind of the operation that was preempted, kind of the operation that ran instead), 33 operation kinds covering every exported function. Plus the static link-surface audit rows (one per undefined / writable symbol per build configuration)";
         register_static_phases(prop, s);
         s.batches.push_back(mk("conc", q ? 400 : 40000, FAST, "single", {}, "2-6 real threads under the serialising seeded scheduler; write trap on the replica image and the shared-input arena; libc traps"));
         s.batches.push_back(mk("conc", q ? 12 : 600, {"C/portable32"}, "single", {}, "32-bit words"));
